@@ -100,6 +100,16 @@ def wAppendThenMapToIndex : VWitness :=
               ty := .struct [{ name := "ms", ty := .array (.map wStr wStr {}) {}, required := false }] [] none {} })],
     files := wFile [] [.arrayToAppend (.byName "M.ms"), .mapToIndex (.byName "M.ms")] }
 
+/-- `struct_fields_as_arguments` twice on `r : ref R` where `R = { v: "x" (constant), r?: ref R }`: after
+    the first application `Assignments[0]` is the *constant* assignment `r.v = "x"`; the second takes its
+    path as the prefix for the fields of the argument -/
+def wSfArgsTwice : VWitness :=
+  { ss := wSchema [
+      ("R", { name := "R", selfPkg := "p", selfName := "R",
+              ty := .struct [{ name := "v", ty := .scalar "string" (.str "x") [] {}, required := true },
+                             { name := "r", ty := .ref "p" "R" {}, required := false }] [] none {} })],
+    files := wFile [] [.structFieldsAsArguments (.byName "R.r") none, .structFieldsAsArguments (.byName "R.r") none] }
+
 def vWitness : String → Option VWitness
   | "dup-option-default" => some wDupOption
   | "dup-builder-default" => some wDupBuilder
@@ -112,6 +122,7 @@ def vWitness : String → Option VWitness
   | "add-assignment-array-to-append" => some wAddAssignmentAppend
   | "map-index-promote" => some wMapIndexPromote
   | "append-then-map-to-index" => some wAppendThenMapToIndex
+  | "sf-args-twice" => some wSfArgsTwice
   | _ => none
 
 end Cog.Builder
